@@ -57,5 +57,6 @@ impl Transaction {
 //@fn Transaction::sighash_preimage_impl
 //@stubrest Transaction
 }
+//@prooffn SigHash::flag_values spec/sighash_table.rs @ src/transaction/sighash.rs
 } // verus!
 fn main() {}
